@@ -38,7 +38,7 @@ def run_cli(src, base=None, via_config=False, target_exists=False):
     r = cli.run(src["files"], main=src.get("main", "main.oal"), base=base, via_config=via_config,
                 target_exists=target_exists, workdir=d, timeout=60.0)
     shutil.rmtree(d, ignore_errors=True)
-    obs = {"exit": r["exit"], "changed": r["target_changed"], "located": located_in(r["stderr"], d, src["files"]),
+    obs = {"exit": r["exit"], "changed": r["target_changed"], "decoy_changed": r["decoy_changed"], "located": located_in(r["stderr"], d, src["files"]),
            "timed_out": r["timed_out"], "stderr": r["stderr"][:300] + (" ... " + r["stderr"][-300:] if len(r["stderr"]) > 300 else ""), "target": r["target"] if r["target_changed"] else None}
     return obs
 
@@ -125,10 +125,15 @@ def crashes(obs):
     return out
 
 
+def mode_of(cfg):
+    """CfgModes of Frontends.tla"""
+    return cfg if isinstance(cfg, str) else ("config" if cfg else "options")
+
+
 def trace_events(src, obs):
     ev = [{"e": "src", "predicted": src.get("predicted", "")}]
     for c in obs["cli"]:
-        ev.append({"e": "cli", "base": c["base"], "config": c["config"], "existed": c["existed"],
+        ev.append({"e": "cli", "base": c["base"], "config": mode_of(c["config"]), "existed": c["existed"], "decoy_changed": bool(c.get("decoy_changed")),
                    "exit": c["exit"] if c["exit"] is not None else -1, "changed": bool(c["changed"]), "located": c["located"]})
     w = obs.get("wasm")
     if w is not None and w.get("outcome") == "ok":
